@@ -89,6 +89,9 @@ pub fn check_perform(
         }
     };
     stats.count(name, real.kind);
+    if let Some(p) = &real.accessor_problem {
+        return (Some((format!("perform/{name}/error-accessors"), format!("{name} in state {} failed with {}: {p}", rstate_json(pre_ref), real.error.clone().unwrap_or_default()))), Some(real));
+    }
     match mode {
         Mode::C02 => {
             if real.kind != Kind::Ok && real.state != *pre_real {
@@ -498,6 +501,103 @@ pub fn print_texts(mode: Mode, run: &mut Run) -> Stats {
     }
     run.bound("e.print_chars", json!(PRINT_CHARS.iter().map(|c| format!("U+{:04X}", *c as u32)).collect::<Vec<_>>()));
     st
+}
+
+/// The named constructors and conversions build the instruction of their name (a program written with them
+/// is the program it reads as).  The expected variant is found by name among the enum's listed variants.
+pub fn constructors(run: &mut Run) -> u64 {
+    use push::instruction::{BoolInstruction, ExecInstruction, FloatInstruction, IntInstruction};
+    use strum::IntoEnumIterator;
+    fn by_name<I: IntoEnumIterator + std::fmt::Debug>(name: &str) -> Option<I> {
+        I::iter().find(|i| {
+            let d = format!("{i:?}");
+            d == name || d.starts_with(&format!("{name}("))
+        })
+    }
+    let mut n = 0u64;
+    let mut check = |run: &mut Run, what: &str, built: PushInstruction, want: Option<PushInstruction>| {
+        n += 1;
+        match want {
+            None => run.machinery(format!("constructor check: no listed variant for {what}")),
+            Some(w) if w != built => run.violation(format!("constructor/{what}"), format!("{what} builds {built:?}, the instruction of that name is {w:?}"), json!({"check":"C01","kind":"constructor","what":what})),
+            _ => {}
+        }
+    };
+    macro_rules! named {
+        ($ty:ident, $ctor:ident, $name:literal) => {
+            check(run, concat!(stringify!($ty), "::", stringify!($ctor), "()"), $ty::$ctor().into(), by_name::<$ty>($name).map(Into::into));
+        };
+    }
+    named!(IntInstruction, pop, "Pop");
+    named!(IntInstruction, dup, "Dup");
+    named!(IntInstruction, swap, "Swap");
+    named!(IntInstruction, is_empty, "IsEmpty");
+    named!(IntInstruction, stack_depth, "StackDepth");
+    named!(IntInstruction, flush, "Flush");
+    named!(IntInstruction, negate, "Negate");
+    named!(IntInstruction, abs, "Abs");
+    named!(IntInstruction, clamp, "Clamp");
+    named!(FloatInstruction, pop, "Pop");
+    named!(FloatInstruction, dup, "Dup");
+    named!(FloatInstruction, swap, "Swap");
+    named!(FloatInstruction, is_empty, "IsEmpty");
+    named!(FloatInstruction, stack_depth, "StackDepth");
+    named!(FloatInstruction, flush, "Flush");
+    named!(ExecInstruction, noop, "Noop");
+    named!(ExecInstruction, dup_block, "DupBlock");
+    named!(ExecInstruction, when, "When");
+    named!(ExecInstruction, unless, "Unless");
+    named!(ExecInstruction, if_else, "IfElse");
+    // literal constructors carry their value: all routes to "push v" agree, and performing one pushes v
+    for v in [0i64, -1, 7, i64::MIN, i64::MAX] {
+        let a: PushInstruction = IntInstruction::push(v).into();
+        let b = PushInstruction::push_int(v);
+        n += 1;
+        let mut pre = RState::empty([4; 4]);
+        pre.int = vec![1];
+        let pushed = make_real(&pre, 10).perform(&PushProgram::Instruction(a.clone())).ok().map(|s| observe(&s).int);
+        if a != b || !format!("{a:?}").contains(&format!("({v})")) || pushed != Some(vec![1, v]) {
+            run.violation("constructor/int-push".to_string(), format!("IntInstruction::push({v}) = {a:?}, PushInstruction::push_int({v}) = {b:?}, performing the former on [1] gives {pushed:?}"), json!({"check":"C01","kind":"constructor","what":"int push"}));
+        }
+    }
+    for v in [0.0f64, -0.0, 1.5, f64::INFINITY, f64::MIN_POSITIVE] {
+        let a: PushInstruction = FloatInstruction::push(v).into();
+        let b = PushInstruction::push_float(ordered_float::OrderedFloat(v));
+        let c: PushInstruction = FloatInstruction::push_ordered_float(ordered_float::OrderedFloat(v)).into();
+        n += 1;
+        let pushed = make_real(&RState::empty([4; 4]), 10).perform(&PushProgram::Instruction(a.clone())).ok().map(|s| observe(&s).float);
+        if a != b || a != c || pushed.as_ref().map(|f| f.len() == 1 && f[0].to_bits() == v.to_bits()) != Some(true) {
+            run.violation("constructor/float-push".to_string(), format!("FloatInstruction::push({v:?}) = {a:?}, push_float = {b:?}, push_ordered_float = {c:?}, performing the first gives {pushed:?}"), json!({"check":"C01","kind":"constructor","what":"float push"}));
+        }
+    }
+    for v in [true, false] {
+        let a: PushInstruction = BoolInstruction::push(v).into();
+        let b = PushInstruction::push_bool(v);
+        n += 1;
+        let pushed = make_real(&RState::empty([4; 4]), 10).perform(&PushProgram::Instruction(a.clone())).ok().map(|s| observe(&s).boolean);
+        if a != b || pushed != Some(vec![v]) {
+            run.violation("constructor/bool-push".to_string(), format!("BoolInstruction::push({v}) = {a:?}, push_bool = {b:?}, performing the former gives {pushed:?}"), json!({"check":"C01","kind":"constructor","what":"bool push"}));
+        }
+    }
+    // a boxed instruction performs like the instruction
+    {
+        use push::instruction::{instruction_error::PushInstructionError, Instruction};
+        let mut pre = RState::empty([4; 4]);
+        pre.int = vec![5, 3];
+        pre.boolean = vec![true];
+        pre.float = vec![2.5];
+        pre.inputs = default_inputs();
+        for (name, i) in instruction_alphabet(false).instrs {
+            n += 1;
+            let boxed: Box<dyn Instruction<PushState, Error = PushInstructionError>> = Box::new(i.clone());
+            let direct = classify(i.perform(make_real(&pre, 10)));
+            let through = classify(boxed.perform(make_real(&pre, 10)));
+            if direct.kind != through.kind || direct.state != through.state || direct.error != through.error {
+                run.violation(format!("constructor/boxed/{name}"), format!("{name} performed through Box<dyn Instruction> gives {:?} {:?}, directly {:?} {:?}", through.kind, through.error, direct.kind, direct.error), json!({"check":"C01","kind":"constructor","what":"boxed"}));
+            }
+        }
+    }
+    n
 }
 
 /// Deep stacks: one of the four stacks holds d elements (d around 2^8 and 2^16, where a narrow counter or
@@ -917,6 +1017,18 @@ pub fn replay(mode: Mode, v: &Value) -> bool {
                 }
             }
         }
+        Some("constructor") => {
+            let mut r = Run::new("C01", "quick");
+            constructors(&mut r);
+            let g = r.violations.lock().unwrap();
+            for (k, x) in g.iter() {
+                println!("MISMATCH [{k}]: {}", x.what);
+            }
+            if g.is_empty() {
+                println!("replay: property held");
+            }
+            g.is_empty()
+        }
         Some("deep") => {
             let mut r = Run::new(&format!("{mode:?}"), "quick");
             deep_stacks(mode, &mut r);
@@ -979,6 +1091,8 @@ pub fn run(mode: Mode, run: &mut Run) {
     if mode == Mode::C01 {
         let e = print_texts(mode, run);
         d.merge(&e);
+        let k = constructors(run);
+        d.transitions += k;
     }
     {
         let e = block_performs(mode, run);
